@@ -648,14 +648,34 @@ def eof(ctx, facts, ex):
                 if (F.callee(ct)[0] or "").endswith("Option::<T>::take") and "pending_len" in str(flow.expr_of(b, ct["args"][0], max_depth=6)) and len(ct["d"]) == 1:
                     carried |= {l for l in flow.local_aliases_fwd(b, ct["d"][0]) if len(b.defs().get(l, [])) > 1}
             gs = [g for g in gs if "pending_len" in str(g[1]) or any(f"('place', {l}" in str(g[1]) for l in carried)]
-            okp = False
+            # tests of "is a length prefix pending?": is_some()/is_none() calls, or a match / let-else on the Option itself
+            tests = []
             for gbb, e, ed, c in gs:
-                tgt_nopending = ed[0] if c[1].endswith("is_some") else ed[1]
-                tgt_pending = ed[1] if c[1].endswith("is_some") else ed[0]
+                tests.append((gbb, ed[0] if c[1].endswith("is_some") else ed[1], ed[1] if c[1].endswith("is_some") else ed[0]))
+            for sw_, pl_, arms_ in variant_arms(b, "std::option::Option", facts):
+                src_ = str(flow.expr_of(b, {"cp": pl_}, max_depth=6))
+                if ("pending_len" in src_ or any(pl_[0] == l for l in carried)) and "None" in arms_ and "Some" in arms_ and arms_["None"] != arms_["Some"]:
+                    tests.append((sw_, arms_["None"], arms_["Some"]))
+            # .. also when the Option is reached through the pinned projection (`*this.pending_len`): the discriminant
+            # switch on a place that is the pending_len field itself (Option: 0 = None, 1 = Some)
+            for sbb_ in sorted(b.live_blocks()):
+                t_ = b.term(sbb_)
+                if t_["k"] != "switch" or any(sbb_ == x[0] for x in tests):
+                    continue
+                l_ = F.op_local(t_["o"])
+                for dbb_, didx_, s_ in b.iter_assigns():
+                    if s_["p"] == [l_] and s_["r"]["k"] == "disc" and len(s_["r"]["p"]) > 1 and "pending_len" in str(flow.expr_of(b, {"cp": s_["r"]["p"]}, max_depth=6)):
+                        tg = {int(v): tgt for v, tgt in t_["ts"]}
+                        none_t = tg.get(0, t_["else"] if 1 in tg else None)
+                        some_t = tg.get(1, t_["else"] if 0 in tg else None)
+                        if none_t is not None and some_t is not None and none_t != some_t:
+                            tests.append((sbb_, none_t, some_t))
+            okp = False
+            for gbb, tgt_nopending, tgt_pending in tests:
                 if any(flow.dominates(dom, ft, gbb) for ft in fin_t) and all(flow.dominates(dom, tgt_nopending, r) or not flow.dominates(dom, gbb, r) for r in rn) and not any(r in b.reachable(tgt_pending, avoid=frozenset(back_edges_targets(b))) for r in rn):
                     okp = True
-            # every Ready(None) must be behind such a guard
-            okp = okp and all(any(flow.dominates(dom, g[0], r) for g in gs) for r in rn)
+            # every Ready(None) must be behind such a test
+            okp = okp and all(any(flow.dominates(dom, g[0], r) for g in tests) for r in rn)
             ctx.ob("EOF", f"{name}:pending-length-is-error", okp, "a length prefix without its body at end of input => Err, not end-of-stream" if okp else "at end of input a pending length prefix (record body missing) does not prevent Ready(None): truncated last record accepted", site_of(b, rn[0]))
     bb_ = facts.bodies.get(f"<{BUF}BufferedBytesStream<S> as futures_util::Stream>::poll_next")
     if bb_ is None:
